@@ -138,7 +138,7 @@ def census():
 CHAIN_VARIANTS = ["first_mul", "second_mul", "second_add", "alternating", "unary", "matmul_right", "matmul_left",
                   "addmm_first", "addmm_second", "addmm_third", "concat_second", "concat_first", "stack_second", "tensor_scalar_mix"]
 DIAMOND_VARIANTS = ["const_w", "param_w", "triple", "matmul"]
-LOOP_MODES = [("no_grad", 300), ("plain", 300), ("concat_param", 300), ("concat_growing", 100), ("stack_param", 300), ("unbind_param", 300)]
+LOOP_MODES = [("no_grad", 300), ("plain", 300), ("concat_param", 300), ("concat_traj", 80), ("stack_param", 300), ("unbind_param", 300)]
 
 
 def chain_ok(r):
